@@ -255,6 +255,18 @@ pub fn step_poll(c: &OCfg) {
             let n = check_positions(c, &o, &f, 0, false, true);
             vassert!(n == o.len, "C02:an element was lost or duplicated by a Pending poll");
             // the front element is still running (else it would have been yielded)
+            let mut k = 0;
+            while k < c.max_parked {
+                vassert!(o.poff[k] != 0, "C04:Pending although the output at the front of the queue is parked and ready");
+                k += 1;
+            }
+            let mut i = 0;
+            while i < c.cap {
+                if o.p.occ[i] && o.off[i] == 0 {
+                    vassert!(!gh.done[i], "C04:Pending although the future at the front of the queue completed in this call");
+                }
+                i += 1;
+            }
             vcover!(f.verif_heap_len() > o.n_parked, "cover:pending_parked_more");
             vcover!(o.out >> 63 == 1, "cover:pending_rebased");
         }
